@@ -18,6 +18,6 @@ one() {
   done
 }
 export -f one
-(if [ -n "$NAMES" ]; then echo $NAMES | tr ' ' '\n'; else ls -d seeded/C*-$pat | xargs -n1 basename; fi) | xargs -P 5 -I{} bash -c 'one {}' > $out.tmp
+(if [ -n "$NAMES" ]; then echo $NAMES | tr ' ' '\n'; else ls -d seeded/C*-$pat | xargs -n1 basename; fi) | xargs -P ${PAR:-4} -I{} bash -c 'one {}' > $out.tmp
 (echo -e "mutant\tproperty\texit\tdetail"; sort $out.tmp) > $out; rm -f $out.tmp
 echo MATRIX-DONE >> $out
